@@ -3,7 +3,7 @@ import importlib
 import sys
 
 MODULES = ["vlib.oracles.selfcheck_core", "vlib.oracles.fst", "vlib.oracles.ig", "vlib.oracles.fs", "vlib.oracles.ll1",
-           "vlib.oracles.trees"]
+           "vlib.oracles.selfcheck_trees"]
 
 
 def _needs_args(fn):
